@@ -310,6 +310,12 @@ class Codec:
                     # pop the completed group off the stack
                     del repeating_groups[-1]
 
+                if not repeating_groups and tag in current_context.tags:
+                    # all groups are closed, back at message level: a repeated plain
+                    #     tag (same as below), there is no group item to start
+                    decoded_msg.set(tag, RepeatingTagError)
+                    continue
+
                 if tag in current_context.tags:
                     # if the repeating group already contains this field,
                     #     start the next
